@@ -644,6 +644,8 @@ func ruleChannelTeardown(c *Ctx, m *termModel, rule string) {
 			bad[seq] = "transport closed " + fmt.Sprint(cnt("rwcClose")) + " times on this path (must be exactly once)"
 		case idx("rwcClose") > idx("recvReader") && idx("recvReader") != 0:
 			bad[seq] = "the reader join is awaited before the transport is closed: the reader stays blocked in Read"
+		case idx("recvReader") == 0 && idx("rwcClose") > idx("recvWriter"):
+			bad[seq] = "after the reader has failed the writer is joined before the transport is closed: a writer blocked in Write on a stalled transport is released only by Close, so the close event is never pushed, the channel stays registered and a one-channel-at-a-time endpoint never reconnects"
 		case cnt("ctxCancel") < 1:
 			bad[seq] = "ctxCancel not called on this path (context leak; Channel.write keeps enqueueing)"
 		}
